@@ -553,6 +553,13 @@ func (ce *cenv) call(x *CExpr) cval {
 			return ce.fail("bnl needs a builder variable, field or pointer")
 		}
 		return cval{t: Not(Sel(vc.arrIn(ce.heap, builderArr, builderSort), a.t)), typ: boolT}
+	case "blen":
+		// blen(b): the number of bytes accumulated in the builder b
+		a := ev(0)
+		if a.typ == nil || !(a.atRef || isPtrType(a.typ)) {
+			return ce.fail("blen needs a builder variable, field or pointer")
+		}
+		return cval{t: Sel(vc.arrIn(ce.heap, builderLenArr, builderLenSort), a.t), typ: types.Typ[types.Int]}
 	case "errtext":
 		// the text of an error value (what its Error method returns)
 		a := ev(0)
@@ -680,6 +687,10 @@ func (ce *cenv) call(x *CExpr) cval {
 		vc.declareFun(name, sorts, rs)
 		if len(as) == 0 {
 			return cval{t: name, typ: rt, sort: rs}
+		}
+		if sf.Name == "hasprefix" && len(as) == 2 {
+			// what strings.HasPrefix guarantees, also where the contract (not a call) introduces the term
+			vc.fact(Imp(sx(name, as...), Ge(sx("slen", as[0]), sx("slen", as[1]))))
 		}
 		return cval{t: sx(name, as...), typ: rt, sort: rs}
 	}
